@@ -44,6 +44,7 @@ type covRec struct {
 	iterBad  string    // first per-iteration violation (chains / submits)
 	wrapBad  string    // an exec outcome wrapped without the is-it-a-Result test
 	cutBad   string    // an item cut short by cancellation whose slot error does not match the context's error
+	fbBad    string    // the slot of an item whose fallback ran does not hold the fallback's outcome
 	isAppend bool      // the list is built by appending one element per iteration (base = latest append result)
 	emptyOf  *eng.Term // the loop ran zero iterations because this slice was empty
 	storePos string
@@ -74,7 +75,7 @@ type batchState struct {
 func (s batchState) Key() string {
 	var sb strings.Builder
 	for _, r := range s.recs {
-		fmt.Fprintf(&sb, "[%s|%s|%d|%v%v%v|%s|%d|%d,%d|%v|%s|%s|%s|%s|%s|%s]", r.loop, r.base.Key(), r.c, r.startOK, r.stored, r.skipped, r.broken, r.done, r.chains, r.submits, r.failed, r.resBad, r.fillBad, r.normBad, r.normSrc.Key()+"/"+r.emptyOf.Key(), r.iterBad+"/"+r.wrapBad+"/"+r.cutBad+fmt.Sprint(r.isAppend), r.storePos)
+		fmt.Fprintf(&sb, "[%s|%s|%d|%v%v%v|%s|%d|%d,%d|%v|%s|%s|%s|%s|%s|%s]", r.loop, r.base.Key(), r.c, r.startOK, r.stored, r.skipped, r.broken, r.done, r.chains, r.submits, r.failed, r.resBad, r.fillBad, r.normBad, r.normSrc.Key()+"/"+r.emptyOf.Key(), r.iterBad+"/"+r.wrapBad+"/"+r.cutBad+"/"+r.fbBad+fmt.Sprint(r.isAppend), r.storePos)
 	}
 	fmt.Fprintf(&sb, "%v,%d,%d,%s,%v,%v,%s,%v%v,%v,%s,%s|", s.chainOpen, s.inTask, s.held, s.flagRead.Key(), s.flagReadOK, s.flagSet, s.pool.Key(), s.outstanding, s.closed, s.poolEvents || s.submitted, s.conc.Key(), s.execIdx.Key())
 	for _, b := range s.execBases {
@@ -668,6 +669,21 @@ func (m *BatchMon) onStore(c *eng.Ctx, s batchState, life lifeState, ev *eng.Eve
 	chainRan := r.chains >= 1
 	lastOK := (life.last == "Exec" || life.last == "Fb") && knownNil(c, life.lastErr)
 	lastFail := (life.last == "Exec" || life.last == "Fb") && knownNonNil(c, life.lastErr)
+	// when the fallback was consulted, its outcome is the item's outcome
+	if chainRan && life.last == "Fb" {
+		switch {
+		case lastOK && !((v.K == eng.KTA && v.A[0] == life.lastVal) || (known && !isErr && valT == life.lastVal)):
+			note(&r.fbBad, "the fallback produced "+life.lastVal.Pretty()+" without error, but the slot receives "+v.Pretty()+": the fallback's outcome does not replace the exec outcome")
+		case lastFail && !(known && isErr && errT.Unwraps(life.lastErr)) && !(known && isErr && wrapsCtxErr(c, errT)):
+			note(&r.fbBad, "the fallback failed with "+life.lastErr.Pretty()+", but the slot receives "+v.Pretty())
+		case !lastOK && !lastFail:
+			// the fallback's outcome was not even looked at: the slot must still be made of it
+			fromFb := (v.K == eng.KTA && v.A[0] == life.lastVal) || (valT != nil && valT == life.lastVal) || (errT != nil && errT.Unwraps(life.lastErr))
+			if !fromFb {
+				note(&r.fbBad, "the fallback was consulted but the slot receives "+v.Pretty()+", which is not made of the fallback's outcome: it does not replace the exec outcome")
+			}
+		}
+	}
 	switch {
 	case v.K == eng.KTA && m.isResult(v.T):
 		if !(chainRan && lastOK && v.A[0] == life.lastVal) {
@@ -777,13 +793,14 @@ func (m *BatchMon) onPost(c *eng.Ctx, s batchState, life lifeState, ev *eng.Even
 		}
 	}
 	if rr == nil {
-		chk("C06.R2", "post", false, "no per-item store into the result list handed to post was found ("+results.Pretty()+")")
+		chk("C06.R2,C09.R3,C11.R3", "post", false, "no per-item store into the result list handed to post was found ("+results.Pretty()+")")
 		return
 	}
-	chk("C06.R2", "post", rr.broken == "", "result slots are not written once per iteration: "+rr.broken)
-	chk("C06.R2", "post", rr.startOK, "the first iteration does not write slot 0")
+	chk("C06.R2,C09.R3,C11.R3", "post", rr.broken == "", "result slots are not written once per iteration: "+rr.broken)
+	chk("C06.R2,C09.R3,C11.R3", "post", rr.startOK, "the first iteration does not write slot 0")
 	chk("C06.R2,C07.R5,C09.R4,C11.R3,C17.R1", "post", rr.resBad == "", rr.resBad)
 	chk("C20.R6,C11.R5", "post", rr.cutBad == "", rr.cutBad)
+	chk("C02.R5,C07.R3", "post", rr.fbBad == "", rr.fbBad)
 	chk("C06.R5,C07.R2", "post", rr.iterBad == "", rr.iterBad)
 	chk("C17.R1,C06.R2", "post", rr.wrapBad == "", rr.wrapBad)
 	if rr.done == 1 {
